@@ -6,6 +6,9 @@ import PyamgV.Proofs.C06Resid
 import PyamgV.Proofs.C06Gmres
 import PyamgV.Proofs.C06CRat
 import PyamgV.Driver.C06
+import PyamgV.Proofs.ExtC06Gmres
+import PyamgV.Model.ExtC06GmresExample
+import Mathlib.Analysis.Real.Sqrt
 
 /-! # C06 — Krylov solvers: status, residual history and callback tell the truth
 
@@ -25,7 +28,18 @@ callback argument; `C x0` ⇒ `x0` is returned unchanged with status `0`, one en
 In the solver theorems `H x = ‖b − A x‖²` (resp. `‖M(b − A x)‖²`) and `C x` is the documented
 criterion evaluated from the true residual of `x`: the recursively updated residual the code tests
 is proved equal to `b − A x` for every state of the loop, with no condition on `A`, `M`, `alpha`,
-`beta`, `omega` (exact arithmetic; any commutative ring of scalars). -/
+`beta`, `omega` (exact arithmetic; any commutative ring of scalars).
+
+Extension E16 — the GMRES family as theorems.  `Model/ExtC06Gmres.lean` holds executable models of the *complete*
+functions `gmres_mgs`, `gmres_householder`, `fgmres` (the inner iterations of the C07 models `gmresStep`, `ghStep`,
+`fgStep` under the control flow of the three files: what is appended to `residuals`, what `callback` receives, the
+early `break` on the Givens estimate, the explicit residual at the end of a cycle, stagnation exit, restarts, the
+returned status); op `ext_c06_gmres` runs them in binary64 and the check compares status, every history entry,
+every callback iterate and `x` with the public functions.  Over an ordered field with an exact square root the
+running estimate `|g[inner+1]|` the code records is proved equal to `‖M(b − A x)‖₂` (fgmres: `‖b − A x‖₂`) of the
+iterate handed to `callback` (`gmres_mgs_estimate`, `gmres_householder_estimate`, `fgmres_estimate`; a non-zero
+estimate certifies the absence of a breakdown, so no breakdown hypothesis is left), hence `GTruthful`: the C06
+clauses for the complete runs, for a positive threshold and `max_inner ≤ n` (`gmres_dims_inner_le`). -/
 namespace PyamgV.Props.C06
 open PyamgV PyamgV.C06
 
@@ -58,6 +72,40 @@ restate minimal_residual_truthful := PyamgV.C06.mr_truthful
 /-! ### GMRES family: control flow -/
 restate gmres_control_spec := PyamgV.C06.gmres_ctl_spec
 restate gmres_converged_x0 := PyamgV.C06.gmres_ctl_converged_x0
+
+/-! ### GMRES family: history values and callback iterates (extension E16) -/
+/-- Arnoldi data + Givens sweep + solved triangular system ⇒ `‖c − B(x₀ + Σ y_j z_j)‖² = (Q_k βe₀)_k²`: the
+squared residual norm of the GMRES iterate is the square of the entry `g[k]` of the rotated right-hand side -/
+restate gmres_estimate_is_residual_norm := PyamgV.Gmres.resnorm_of_givens
+/-- the same from the invariant of the executable Givens bookkeeping (`givensUpdate`, `backSub`) -/
+restate gmres_estimate_list_level := PyamgV.C07.givL_resnorm
+/-- `g[k+1] ≠ 0` ⇒ the rotation was computed, `g[k] ≠ 0`, the new diagonal entry of `R` is non-zero -/
+restate gmres_nonzero_estimate_live_rotation := PyamgV.C07.givensUpdate_nb
+/-- … by induction: a non-zero estimate certifies a non-singular triangular factor -/
+restate gmres_nonzero_estimate_no_breakdown := PyamgV.C07.nb_step
+/-- `_gmres_mgs.py`, inner-iteration model: `g[m+1] ≠ 0`, `m + 1 < n` ⇒ `‖M (b − A x_{m+1})‖₂ = |g[m+1]|` for the
+iterate `x_{m+1}` the callback receives (no breakdown hypothesis: `gmSeq_nb`) -/
+restate gmres_mgs_estimate := PyamgV.C07.gmres_mgs_estimate
+/-- `_gmres_householder.py` -/
+restate gmres_householder_estimate := PyamgV.C07.gmres_hh_estimate
+/-- `_fgmres.py`: the norm of the true residual `b − A x_{m+1}`, for any preconditioner maps -/
+restate fgmres_estimate := PyamgV.C07.fgmres_estimate
+/-- control flow of the complete runs: estimate invariant ⇒ the C06 clauses (`GTruthful`) -/
+restate gmres_run_truthful_of_estimate := PyamgV.ExtC06.gRun_truthful
+/-- the iteration limits computed from `restart` / `maxiter` never exceed `n` -/
+restate gmres_dims_inner_le := PyamgV.ExtC06.gmresDims_inner_le
+/-- complete `gmres_mgs` model over a module: history entry `k` = `‖M(b − A ·)‖₂` of callback iterate `k`, last entry
+and last callback = returned `x`, status `0` ⇒ the recomputed residual meets the criterion, positive status = number
+of iterations and the criterion fails, converged `x0` returned unchanged -/
+restate gmres_mgs_truthful := PyamgV.ExtC06.gmres_mgs_run_truthful
+restate gmres_householder_truthful := PyamgV.ExtC06.gmres_hh_run_truthful
+/-- `fgmres`: history and criterion in the norm of the true residual `b − A x` (since 925d7a0 its counter is the
+number of callbacks, as in the other two files) -/
+restate fgmres_truthful := PyamgV.ExtC06.fgmres_run_truthful
+/-- the same for the `Vector K n` instance the driver executes (op `ext_c06_gmres`, in binary64 there) -/
+restate gmres_mgs_vec_truthful := PyamgV.ExtC06.gmres_mgs_vec_truthful
+restate gmres_householder_vec_truthful := PyamgV.ExtC06.gmres_hh_vec_truthful
+restate fgmres_vec_truthful := PyamgV.ExtC06.fgmres_vec_truthful
 
 /-! ### the theorems are about what the driver runs -/
 /-- the ops `c06_run <solver> r …` evaluate exactly the functions of the theorems above at `K = Rat`
@@ -123,5 +171,35 @@ example : gmresCtl false 5 (some 2) (some 3) false (fun _ => false) (fun _ => fa
 /-- early inner exit at the first step of the second cycle, confirmed by the explicit residual -/
 example : gmresCtl false 5 (some 2) (some 3) false (fun k => k == 3) (fun k => k == 3) (fun _ => false)
     = some ⟨0, 3, 3⟩ := by decide
+
+
+/-! ### non-vacuity of the GMRES theorems (extension E16) -/
+/-- the hypotheses of the complete-run theorems are satisfiable: over `ℝ` with `Real.sqrt`, any `3 × 3` system, any
+positive threshold, restart 2 with 2 cycles -/
+example (A M : Vector (Vector ℝ 3) 3) (b x0 : Vector ℝ 3) :
+    ExtC06.GTruthful
+      (ExtC06.gRun (ExtC06.mgsEng (C07.vecOps (fun a => a) A M) Real.sqrt C07.posK C07.nzK 3 b) ExtC06.ltK ExtC06.absK
+        (1 / 2) (fun _ _ => false) ⟨2, 2⟩ x0) x0
+      (ExtC06.mgsEng (C07.vecOps (fun a => a) A M) Real.sqrt C07.posK C07.nzK 3 b).resn
+      (fun x => ExtC06.ltK ((ExtC06.mgsEng (C07.vecOps (fun a => a) A M) Real.sqrt C07.posK C07.nzK 3 b).resn x) (1 / 2))
+      ⟨2, 2⟩ :=
+  PyamgV.ExtC06.gmres_mgs_vec_truthful A M Real.sqrt b (fun _ h => Real.mul_self_sqrt h) Real.sqrt_nonneg (1 / 2)
+    (by norm_num) _ ⟨2, 2⟩ (by decide) (by decide) (by decide) x0
+/-- a concrete run of the three complete models evaluated by the kernel (all square roots rational): the recorded
+estimate `4` is the residual norm of the callback iterate `(3/5, 0)`; the cycle ends at the solution, status `0` -/
+example : (ExtC06.Ex.runM (5/2)).status = 0 ∧ (ExtC06.Ex.runM (5/2)).niter = 2 ∧ (ExtC06.Ex.runM (5/2)).hist = [5, 4, 0] ∧
+    (ExtC06.Ex.runM (5/2)).log = [#v[3/5, 0], #v[5, -10]] ∧ (ExtC06.Ex.runM (5/2)).x = #v[5, -10] ∧
+    (ExtC06.Ex.runH (5/2)).status = 0 ∧ (ExtC06.Ex.runH (5/2)).hist = [5, 4, 0] ∧
+    (ExtC06.Ex.runH (5/2)).log = [#v[3/5, 0], #v[5, -10]] ∧
+    (ExtC06.Ex.runF (5/2)).status = 0 ∧ (ExtC06.Ex.runF (5/2)).hist = [5, 4, 0] ∧
+    (ExtC06.Ex.runF (5/2)).log = [#v[3/5, 0], #v[5, -10]] ∧
+    [ExtC06.Ex.resn₀ #v[0, 0], ExtC06.Ex.resn₀ #v[3/5, 0], ExtC06.Ex.resn₀ #v[5, -10]] = [5, 4, 0] :=
+  ExtC06.Ex.full_cycle
+/-- early inner exit confirmed by the explicit residual; the iteration left by `break` is counted -/
+example : (ExtC06.Ex.runM (9/2)).status = 0 ∧ (ExtC06.Ex.runM (9/2)).niter = 1 ∧ (ExtC06.Ex.runM (9/2)).hist = [5, 4] ∧
+    (ExtC06.Ex.runM (9/2)).log = [#v[3/5, 0]] ∧
+    (ExtC06.Ex.runF (9/2)).status = 0 ∧ (ExtC06.Ex.runF (9/2)).niter = 1 ∧ (ExtC06.Ex.runF (9/2)).hist = [5, 4] ∧
+    (ExtC06.Ex.runF (9/2)).log = [#v[3/5, 0]] :=
+  ExtC06.Ex.early_exit
 
 end PyamgV.Props.C06
